@@ -312,5 +312,14 @@ func (r *receiver) injectStream(buf []byte, closeAfter bool, wait time.Duration)
 // the bubble; its goroutine ends with the probe timeout or stays blocked on a
 // channel that nobody reads — it is not a memberlist goroutine).
 func (r *receiver) retire() {
+	// release the harness's own pending Ping (sequence number 1) so that its goroutine ends
+	ack, _ := ml.VEncode(ml.VAckRespMsg, &ml.VAckResp{SeqNo: 1}, false)
+	r.n.M.VHandleCommand(ack, simAddr("10.0.0.1:7946"), time.Now())
+	settle()
+	select {
+	case v := <-r.pingRes:
+		r.pingDone = v
+	default:
+	}
 	_ = r.n.M.Shutdown()
 }
